@@ -387,6 +387,9 @@ func checkC10(c *Ctx, r *Report) {
 	// hash state — a reply rejected just before the retransmission must not be left in the
 	// session's HMAC (shared with C03, C17)
 	checkHashAlwaysReset(c, r)
+	// ... of that same command: the message and RMCP layers are rebuilt from the same literals
+	// for every transmission (shared with C03, C06)
+	checkBuildLiterals(c, r)
 }
 
 // lateFailure: the path classified the completion code as final and then found a call's error
